@@ -544,7 +544,10 @@ pub fn run(ctx: &Ctx) {
     // boundary (thorough: at every byte) from the insertion point on.  Loader state that tracks "the
     // open element" meets an end tag that is not its own, and then end of file.
     {
-        let base = docs.iter().find(|d| d.name == "generated/no indentation").map(|d| d.doc.clone()).unwrap_or_default();
+        let base_names: Vec<&str> = match ctx.tier {
+            Tier::Quick => vec!["generated/no indentation"],
+            Tier::Thorough => vec!["generated/no indentation", "generated/default", "generated/noise", "generated/refs as start/end, ref first", "generated/unicode"],
+        };
         let snippets: Vec<(&str, &[u8])> = vec![
             ("PDU", b"<fx:PDU ID=\"PX\"><ho:SHORT-NAME>px</ho:SHORT-NAME><fx:BYTE-LENGTH>1</fx:BYTE-LENGTH><fx:PDU-TYPE>OTHER</fx:PDU-TYPE></fx:PDU>"),
             ("FRAME", b"<fx:FRAME ID=\"ID_77\"><ho:SHORT-NAME>fx</ho:SHORT-NAME><fx:BYTE-LENGTH>2</fx:BYTE-LENGTH><fx:FRAME-TYPE>OTHER</fx:FRAME-TYPE></fx:FRAME>"),
@@ -556,6 +559,10 @@ pub fn run(ctx: &Ctx) {
             ("PDU without BYTE-LENGTH", b"<fx:PDU ID=\"PY\"><ho:SHORT-NAME>py</ho:SHORT-NAME></fx:PDU>"),
             ("FRAME with PDU inside", b"<fx:FRAME ID=\"ID_78\"><ho:SHORT-NAME>fy</ho:SHORT-NAME><fx:BYTE-LENGTH>2</fx:BYTE-LENGTH><fx:PDU ID=\"PZ\"><ho:SHORT-NAME>pz</ho:SHORT-NAME><fx:BYTE-LENGTH>1</fx:BYTE-LENGTH></fx:PDU></fx:FRAME>"),
         ];
+        let mut composed: Vec<(Vec<u8>, Vec<usize>, String)> = vec![];
+        let mut n_points = 0usize;
+        for base_name in &base_names {
+        let base = docs.iter().find(|d| d.name == *base_name).map(|d| d.doc.clone()).unwrap_or_default();
         // insertion points: right after every start tag of a non-empty element, right before every end tag
         let mut points: Vec<usize> = vec![];
         {
@@ -578,17 +585,18 @@ pub fn run(ctx: &Ctx) {
             points.dedup();
         }
         let every_byte = true;
+        n_points += points.len();
         // per (point, snippet): the composed document and its cut offsets
-        let mut composed: Vec<(Vec<u8>, Vec<usize>, String)> = vec![];
         for p in &points {
             for (name, snip) in &snippets {
                 let mut d = base[..*p].to_vec();
                 d.extend_from_slice(snip);
                 d.extend_from_slice(&base[*p..]);
-                let cuts: Vec<usize> = (*p..=d.len()).filter(|c| every_byte || *c == d.len() || d[*c] == b'<' || (*c > 0 && d[*c - 1] == b'>')).collect();
+                let cuts: Vec<usize> = (*p..=d.len()).filter(|c| every_byte || *c == d.len()).collect();
                 let ctxt = String::from_utf8_lossy(&base[p.saturating_sub(30)..*p]).to_string();
-                composed.push((d, cuts, format!("a complete {} element inserted at byte {} (after {:?})", name, p, ctxt)));
+                composed.push((d, cuts, format!("a complete {} element inserted into '{}' at byte {} (after {:?})", name, base_name, p, ctxt)));
             }
+        }
         }
         let mut bounds = vec![];
         let mut total = 0u64;
@@ -597,7 +605,7 @@ pub fn run(ctx: &Ctx) {
             bounds.push(total);
         }
         let (composed, bounds) = (&composed, &bounds);
-        ctx.run_family(Family::new("c12.nesting", total, format!("the generated document (no indentation) with a COMPLETE element of each of {} kinds (PDU, FRAME, SIGNAL, CODING, SIGNAL-INSTANCE, PDU-INSTANCE, MANUFACTURER-EXTENSION, PDU without BYTE-LENGTH, FRAME holding a PDU) inserted at each of {} points (after every start tag, before every end tag), cut at {} from the insertion point to the end", snippets.len(), points.len(), if every_byte { "EVERY byte" } else { "every tag boundary" }), move |i, loc| {
+        ctx.run_family(Family::new("c12.nesting", total, format!("{} generated document(s) {:?} with a COMPLETE element of each of {} kinds (PDU, FRAME, SIGNAL, CODING, SIGNAL-INSTANCE, PDU-INSTANCE, MANUFACTURER-EXTENSION, PDU without BYTE-LENGTH, FRAME holding a PDU) inserted at each of {} points (after every start tag, before every end tag), cut at EVERY byte from the insertion point to the end", base_names.len(), base_names, snippets.len(), n_points), move |i, loc| {
             let s = bounds.partition_point(|b| *b <= i);
             let j = if s > 0 { i - bounds[s - 1] } else { i };
             let (d, cuts, about) = &composed[s];
